@@ -1315,4 +1315,70 @@ def is_value_memo_store(prog: Program, f: FuncInfo, stmt: ast.stmt, cache: str) 
             if "random" in q or q.startswith(("time.", "os.", "uuid.")):
                 return False
     data = {x for x in vl if not x.startswith("call:")}
-    return bool(kl) and data <= kl
+    if not (bool(kl) and data <= kl):
+        return False
+    return not memo_value_written(prog, f, stmt, cache)
+
+
+ARRAY_MAKERS = ("asarray", "array", "ascontiguousarray", "zeros", "ones", "empty", "full", "stack", "vstack", "hstack", "concatenate", "copy")
+
+
+def memo_value_written(prog: Program, f: FuncInfo, stmt: ast.Assign, cache: str) -> bool:
+    """The entry of a value-keyed memo is only a function of its key as long as nobody writes *into* the object that was stored: a reader that standardises,
+    sorts or fills the array it was handed changes what every later reader of the same key gets.  Followed: the names bound in `f` to the stored value or to
+    reads of the memo, `f`'s return value at its callers, and one level of callers handing it on."""
+    held: set[str] = set()
+    if isinstance(stmt.value, ast.Name):
+        held.add(stmt.value.id)
+    for t in stmt.targets:
+        if isinstance(t, ast.Name):
+            held.add(t.id)
+    for x in ast.walk(f.node):
+        if isinstance(x, (ast.Assign, ast.AnnAssign)) and x.value is not None:
+            v = x.value
+            reads = (isinstance(v, ast.Subscript) and isinstance(v.value, ast.Name) and v.value.id == cache) or (
+                isinstance(v, ast.Call) and isinstance(v.func, ast.Attribute) and isinstance(v.func.value, ast.Name) and v.func.value.id == cache and v.func.attr in ("get", "setdefault", "pop"))
+            if isinstance(v, ast.NamedExpr):
+                reads = reads or False
+            if reads:
+                for t in (x.targets if isinstance(x, ast.Assign) else [x.target]):
+                    if isinstance(t, ast.Name):
+                        held.add(t.id)
+    arrayish = any(isinstance(a, ast.Assign) and any(isinstance(t, ast.Name) and t.id in held for t in a.targets) and isinstance(a.value, ast.Call)
+                   and (dotted(a.value.func) or "").split(".")[-1] in ARRAY_MAKERS for a in ast.walk(f.node)) or (
+        isinstance(stmt.value, ast.Call) and (dotted(stmt.value.func) or "").split(".")[-1] in ARRAY_MAKERS)
+
+    def written(g: FuncInfo, name: str) -> bool:
+        if not _written_through(g, name):
+            return False
+        only_aug = not any(isinstance(x, (ast.Subscript, ast.Attribute)) and isinstance(x.ctx, (ast.Store, ast.Del)) and _root_name(x) == name for x in ast.walk(g.node)) and not any(
+            isinstance(x, ast.Call) and isinstance(x.func, ast.Attribute) and isinstance(x.func.value, ast.Name) and x.func.value.id == name for x in ast.walk(g.node))
+        if only_aug and not arrayish:
+            raise AnalysisError(f"{g.qualname}: `{name} op= ...` on a value read from the memo `{cache}`: in place for an array, a rebinding for a scalar; the stored value's kind is not readable")
+        return True
+    for h in held:
+        if written(f, h):
+            return True
+    returns_held = any(isinstance(r, ast.Return) and r.value is not None and any(isinstance(n, ast.Name) and n.id in (held | {cache}) for n in ast.walk(r.value)) for r in ast.walk(f.node))
+    if returns_held:
+        for g, call in prog.callers_of(f):
+            par = getattr(call, "_parent", None)
+            if isinstance(par, (ast.Assign, ast.AnnAssign)):
+                tg = par.targets[0] if isinstance(par, ast.Assign) else par.target
+                if isinstance(tg, ast.Name) and written(g, tg.id):
+                    return True
+            elif isinstance(par, ast.Return):
+                for g2, c2 in prog.callers_of(g):
+                    p2 = getattr(c2, "_parent", None)
+                    if isinstance(p2, (ast.Assign, ast.AnnAssign)):
+                        tg = p2.targets[0] if isinstance(p2, ast.Assign) else p2.target
+                        if isinstance(tg, ast.Name) and written(g2, tg.id):
+                            return True
+    return False
+
+
+def _root_name(x: ast.expr) -> str | None:
+    r = x.value if isinstance(x, (ast.Subscript, ast.Attribute)) else x
+    while isinstance(r, (ast.Subscript, ast.Attribute)):
+        r = r.value
+    return r.id if isinstance(r, ast.Name) else None
